@@ -65,6 +65,9 @@ func NewEngine(L *Loaded, cfg *Config, out io.Writer) *Engine {
 	if cfg.MaxSteps <= 0 {
 		cfg.MaxSteps = 200_000_000
 	}
+	if cfg.MaxEvents <= 0 {
+		cfg.MaxEvents = 4096
+	}
 	if cfg.Solver == "" {
 		cfg.Solver = "z3"
 	}
